@@ -180,7 +180,9 @@ pub fn positions(sh: Shape, full: bool) -> Vec<u32> {
         .filter(|k| {
             let digit = k / d;
             let near_boundary = k % d == 0 || k % d == 1 || k % d == d - 1;
-            let chosen_digit = digit % stride == 0 || digit <= 1 || digit + 2 >= n;
+            // digit indices around 256: where a digit index, a digit count or a per-digit sum narrowed to
+            // 8 bits (or, for sums of u8 digits, to 16 bits) first wraps
+            let chosen_digit = digit % stride == 0 || digit <= 1 || digit + 2 >= n || (254..=259).contains(&digit);
             full || w <= 1100 || (near_boundary && chosen_digit) || k % 61 == 0 || *k >= w - 3
         })
         .collect()
@@ -218,3 +220,46 @@ pub fn position_pairs(sh: Shape, full: bool) -> impl Iterator<Item = (Pat, Pat)>
         ]
     })
 }
+
+/// [p-bit mantissa | guard | tail] patterns at every bit length: the integers on which an int -> float
+/// conversion has to round (copy of C14's generator, used by C19 for ToPrimitive::to_f32 / to_f64)
+pub fn float_rounding_ints(sh: Shape, signed: bool) -> BoxedStrategy<Pat> {
+    let w = sh.bits() as u64;
+    let maxbits = if signed { w - 1 } else { w };
+    let wrap = move |z: Z| Pat(z.to_le_wrapped(sh.bytes));
+    let lengths = prop_oneof![
+        6 => 1u64..=maxbits,
+        2 => prop_oneof![Just(23u64), Just(24), Just(25), Just(26), Just(52), Just(53), Just(54), Just(55), Just(64), Just(65)],
+        3 => prop_oneof![Just(127u64), Just(128), Just(129), Just(1023), Just(1024), Just(1025)],
+        2 => (0u64..3).prop_map(move |k| maxbits - k.min(maxbits - 1)),
+    ];
+    let shaped = (lengths, any::<bool>(), any::<u64>(), 0u8..3, 0u8..8, gen::pattern(sh), any::<bool>()).prop_map(move |(l, f32_target, mant, mant_class, tail_class, noise, neg)| {
+        let l = l.min(maxbits).max(1);
+        let p = if f32_target { 24u64 } else { 53 };
+        if l <= p {
+            let z = Z::from_u64(mant).mod_2k(l.saturating_sub(1)).add(&Z::pow2(l - 1));
+            return wrap(if neg && signed { z.neg() } else { z });
+        }
+        // kept mantissa: top bit set, parity chosen by class
+        let m = match mant_class {
+            0 => (mant & ((1u64 << p) - 1)) | (1u64 << (p - 1)) | 1,          // odd
+            1 => ((mant & ((1u64 << p) - 1)) | (1u64 << (p - 1))) & !1,       // even
+            _ => (1u64 << p) - 1,                                            // all ones: rounding up carries into the exponent
+        };
+        let t = l - p; // number of discarded bits
+        let tail = match tail_class {
+            0 => Z::zero(),                                       // 0...0   exact
+            1 => Z::one(),                                        // 0...01  just above
+            2 => Z::pow2(t - 1),                                  // 10...0  exact tie
+            3 => Z::pow2(t - 1).add_i(1),                         // 10...01 just above the tie
+            4 => Z::pow2(t - 1).add_i(-1),                        // 01...1  just below the tie
+            5 => Z::pow2(t).add_i(-1),                            // 1...1
+            6 => Z::pow2(t - 1).add(&Z::pow2(t / 2)).mod_2k(t),  // tie + one far lower bit
+            _ => Z::from_le_unsigned(&noise.0).mod_2k(t),
+        };
+        let z = Z::from_u64(m).shl(t).add(&tail.mod_2k(t));
+        wrap(if neg && signed { z.neg() } else { z })
+    });
+    prop_oneof![8 => shaped, 2 => gen::pattern(sh), 1 => gen::boundary(sh)].boxed()
+}
+
